@@ -7,11 +7,14 @@ import (
 	"fmt"
 	"go/token"
 	"go/types"
+	"os"
 	"sort"
 	"strings"
 
 	"golang.org/x/tools/go/ssa"
 )
+
+var dbgUnsat = os.Getenv("GOSMT_DBGUNSAT") != ""
 
 type decisionSrc struct {
 	script []int64
@@ -56,7 +59,7 @@ type Exec struct {
 	inputs    []InputVar
 	steps     int
 	decisions int
-	frames    []string
+	frames    []frameRec
 
 	// results of this path
 	viol       []Violation
@@ -70,6 +73,159 @@ type Exec struct {
 	initDone   bool
 	lastModel  map[string]uint64
 	oblCache   map[int][][]int
+	pending    []pendingObl
+	models     []*poolModel
+	hname      string
+	shared     *sharedCaches
+}
+
+type pendingObl struct {
+	cond        *Term // pc-prefix ∧ bad
+	kind, label string
+	site        string
+	stack       []string
+	script      []int64
+}
+
+// poolModel is a solver model known to satisfy pc[:upTo].
+type poolModel struct {
+	m    map[string]uint64
+	memo map[int]uint64
+	upTo int
+	dead bool
+}
+
+func (e *Exec) addModel(m map[string]uint64) {
+	if m == nil {
+		return
+	}
+	pm := &poolModel{m: m, memo: map[int]uint64{}, upTo: len(e.pc)}
+	e.models = append(e.models, pm)
+	if len(e.models) > 40 {
+		e.models = e.models[len(e.models)-40:]
+	}
+	if e.shared != nil {
+		e.shared.models = e.models
+	}
+}
+
+// sharedCaches survive across the paths a worker runs in one term context.
+type sharedCaches struct {
+	models []*poolModel
+	unsat  map[int][][]int // cond ID -> pc ID sets under which cond is infeasible
+}
+
+func (e *Exec) pcIDs() map[int]bool {
+	cur := make(map[int]bool, len(e.pc))
+	for _, p := range e.pc {
+		cur[p.ID] = true
+	}
+	return cur
+}
+
+func (e *Exec) knownUnsat(cond *Term) bool {
+	if e.shared == nil {
+		return false
+	}
+	ents := e.shared.unsat[cond.ID]
+	if len(ents) == 0 {
+		return false
+	}
+	cur := e.pcIDs()
+	for _, ent := range ents {
+		ok := true
+		for _, id := range ent {
+			if !cur[id] {
+				ok = false
+				break
+			}
+		}
+		if ok {
+			return true
+		}
+	}
+	return false
+}
+
+func (e *Exec) storeUnsat(cond *Term) {
+	if e.shared == nil || len(e.shared.unsat[cond.ID]) >= 8 {
+		return
+	}
+	ids := make([]int, len(e.pc))
+	for i, p := range e.pc {
+		ids[i] = p.ID
+	}
+	e.shared.unsat[cond.ID] = append(e.shared.unsat[cond.ID], ids)
+}
+
+// feasible decides whether pc ∧ cond is satisfiable, using syntactic checks,
+// pooled models and the unsat cache before the solver.
+func (e *Exec) feasible(cond *Term, modelSaysYes bool) bool {
+	if modelSaysYes {
+		return true
+	}
+	nc := e.ctx.Not(cond)
+	for _, p := range e.pc {
+		if p == cond {
+			return true
+		}
+		if p == nc {
+			return false
+		}
+	}
+	if e.knownUnsat(cond) {
+		return false
+	}
+	r, m := e.sat(cond)
+	switch r {
+	case Sat:
+		e.pc = append(e.pc, cond)
+		e.addModel(m)
+		e.pc = e.pc[:len(e.pc)-1]
+	case Unsat:
+		e.storeUnsat(cond)
+		if dbgUnsat {
+			fmt.Fprintf(os.Stderr, "UNSATBR %s pc=%d\n", e.where(), len(e.pc))
+		}
+	case Unknown:
+		e.note("unknown:branch")
+	}
+	return r != Unsat
+}
+
+// modelFor reports whether some pooled model satisfies the current pc and gives
+// cond the wanted value.
+func (e *Exec) modelSays(cond *Term) (canTrue, canFalse bool) {
+	for _, pm := range e.models {
+		if pm.dead {
+			continue
+		}
+		if pm.upTo > len(e.pc) {
+			// pc was truncated (summaries); re-validate from scratch
+			pm.upTo = 0
+		}
+		ok := true
+		for pm.upTo < len(e.pc) {
+			if Eval(e.pc[pm.upTo], pm.m, pm.memo) != 1 {
+				ok = false
+				break
+			}
+			pm.upTo++
+		}
+		if !ok {
+			pm.dead = true
+			continue
+		}
+		if Eval(cond, pm.m, pm.memo) == 1 {
+			canTrue = true
+		} else {
+			canFalse = true
+		}
+		if canTrue && canFalse {
+			return
+		}
+	}
+	return
 }
 
 type RunCfg struct {
@@ -147,61 +303,12 @@ func (e *Exec) branch(cond *Term) bool {
 	if e.lazy > 0 {
 		tOK, fOK = true, true
 	} else {
-		// use the last model to save one query
-		guess := -1
-		if e.lastModel != nil {
-			guess = int(Eval(cond, e.lastModel, map[int]uint64{}))
-			// the last model satisfies pc only if it was obtained for this pc
-			// prefix; verify cheaply by evaluating the pc.
-			for _, p := range e.pc {
-				if Eval(p, e.lastModel, map[int]uint64{}) != 1 {
-					guess = -1
-					break
-				}
-			}
-		}
-		switch guess {
-		case 1:
-			tOK = true
-			r, m := e.sat(e.ctx.Not(cond))
-			fOK = r != Unsat
-			if r == Sat {
-				e.lastModel = m
-			}
-			if r == Unknown {
-				e.note("unknown:branch")
-			}
-		case 0:
-			fOK = true
-			r, m := e.sat(cond)
-			tOK = r != Unsat
-			if r == Sat {
-				e.lastModel = m
-			}
-			if r == Unknown {
-				e.note("unknown:branch")
-			}
-		default:
-			r, m := e.sat(cond)
-			tOK = r != Unsat
-			if r == Sat {
-				e.lastModel = m
-			}
-			if r == Unknown {
-				e.note("unknown:branch")
-			}
-			if !tOK {
-				fOK = true // pc is feasible by invariant
-			} else {
-				r2, m2 := e.sat(e.ctx.Not(cond))
-				fOK = r2 != Unsat
-				if r2 == Sat && e.lastModel == nil {
-					e.lastModel = m2
-				}
-				if r2 == Unknown {
-					e.note("unknown:branch")
-				}
-			}
+		mt, mf := e.modelSays(cond)
+		tOK = e.feasible(cond, mt)
+		if !tOK {
+			fOK = true // pc is feasible by invariant
+		} else {
+			fOK = e.feasible(e.ctx.Not(cond), mf)
 		}
 	}
 	if !tOK && !fOK {
@@ -292,16 +399,30 @@ func (e *Exec) note(k string) {
 	e.notes[k]++
 }
 
+type frameRec struct {
+	fn  *ssa.Function
+	ins ssa.Instruction
+}
+
+func (fr frameRec) render(g *Engine) string {
+	if fr.ins == nil {
+		return g.fnName(fr.fn)
+	}
+	return g.fnName(fr.fn) + "@" + g.pos(fr.ins.Pos())
+}
+
 func (e *Exec) where() string {
 	if len(e.frames) == 0 {
 		return "?"
 	}
-	return e.frames[len(e.frames)-1]
+	return e.frames[len(e.frames)-1].render(e.eng)
 }
 
 func (e *Exec) stackTrace() []string {
 	out := make([]string, len(e.frames))
-	copy(out, e.frames)
+	for i, fr := range e.frames {
+		out[i] = fr.render(e.eng)
+	}
 	return out
 }
 
@@ -311,32 +432,92 @@ func (e *Exec) obligation(bad *Term, kind, label string) {
 	if bad.IsFalse() {
 		return
 	}
-	if e.oblCached(bad) {
-		if bad.IsTrue() {
-			panic(pathEnd{"infeasible"})
+	if bad.IsTrue() {
+		// definite: decide now (the path ends here)
+		r, m := e.sat()
+		if r == Sat {
+			e.viol = append(e.viol, Violation{Kind: kind, Label: label, Site: e.where(), Model: m,
+				Script: append([]int64{}, e.src.script[:e.src.pos]...), Stack: e.stackTrace()})
+		} else if r == Unknown {
+			e.note("unknown:obligation:" + kind)
+		}
+		panic(pathEnd{"definite " + kind + ": " + label})
+	}
+	if e.knownUnsat(bad) {
+		e.addPC(e.ctx.Not(bad))
+		return
+	}
+	if e.sumEp > 0 {
+		// inside a summary the same obligation recurs on every sub-path under
+		// the same outer path condition: decide it eagerly and cache unsat.
+		r, m := e.sat(bad)
+		switch r {
+		case Unsat:
+			e.storeUnsat(bad)
+		case Sat:
+			e.viol = append(e.viol, Violation{Kind: kind, Label: label, Site: e.where(), Model: m,
+				Script: append([]int64{}, e.src.script[:e.src.pos]...), Stack: e.stackTrace()})
+		default:
+			e.note("unknown:obligation:" + kind)
 		}
 		e.addPC(e.ctx.Not(bad))
 		return
 	}
-	r, m := e.sat(bad)
-	if r == Unsat {
-		e.oblStore(bad)
-	}
-	switch r {
-	case Sat:
-		e.viol = append(e.viol, Violation{Kind: kind, Label: label, Site: e.where(), Model: m,
-			Script: append([]int64{}, e.src.script[:e.src.pos]...), Stack: e.stackTrace()})
-	case Unknown:
-		e.note("unknown:obligation:" + kind)
-	}
-	if bad.IsTrue() {
-		panic(pathEnd{"definite " + kind + ": " + label})
-	}
+	// deferred: collected and discharged in one query at the end of the path
+	conj := append(append([]*Term{}, e.pc...), bad)
+	e.pending = append(e.pending, pendingObl{cond: e.ctx.And(conj...), kind: kind, label: label, site: e.where(),
+		stack: e.stackTrace(), script: append([]int64{}, e.src.script[:e.src.pos]...)})
 	e.addPC(e.ctx.Not(bad))
-	if r != Unsat {
-		// make sure the rest of the path is feasible
-		if e.satNoModel() == Unsat {
-			panic(pathEnd{"infeasible after " + kind})
+	if len(e.pending) >= 400 {
+		e.flushObligations()
+	}
+}
+
+// flushObligations discharges all pending obligations with one query (and, if
+// that is sat, isolates every violated one with its own model).
+func (e *Exec) flushObligations() {
+	pend := e.pending
+	e.pending = nil
+	if len(pend) == 0 {
+		return
+	}
+	var excl []*Term
+	for round := 0; round < 8; round++ {
+		var ds []*Term
+		for _, p := range pend {
+			ds = append(ds, p.cond)
+		}
+		q := append([]*Term{e.ctx.Or(ds...)}, excl...)
+		r, m := e.sol.Check(q, true)
+		if r == Unsat {
+			return
+		}
+		if r == Unknown {
+			for _, p := range pend {
+				e.note("unknown:obligation:" + p.kind)
+			}
+			return
+		}
+		memo := map[int]uint64{}
+		var rest []pendingObl
+		hit := false
+		for _, p := range pend {
+			if Eval(p.cond, m, memo) == 1 {
+				hit = true
+				e.viol = append(e.viol, Violation{Kind: p.kind, Label: p.label, Site: p.site, Model: m, Script: p.script, Stack: p.stack})
+				excl = append(excl, e.ctx.Not(p.cond))
+			} else {
+				rest = append(rest, p)
+			}
+		}
+		if !hit {
+			// model evaluation disagrees with the solver (UF terms): report conservatively
+			e.note("unknown:obligation:model-eval")
+			return
+		}
+		pend = rest
+		if len(pend) == 0 {
+			return
 		}
 	}
 }
@@ -389,8 +570,17 @@ func (e *Exec) assume(c *Term) {
 	if c.IsFalse() {
 		panic(pathEnd{"assume false"})
 	}
+	if e.lazy == 0 && e.src.pos >= len(e.src.script) {
+		// feasibility may be known from a pooled model
+		if t, _ := e.modelSays(c); t {
+			e.addPC(c)
+			return
+		}
+	}
 	e.addPC(c)
-	if e.lazy > 0 {
+	if e.lazy > 0 || e.src.pos < len(e.src.script) {
+		// lazy mode, or replaying the prefix of a path whose parent already
+		// passed this assumption under the same decisions
 		return
 	}
 	r, m := e.sat()
@@ -398,7 +588,7 @@ func (e *Exec) assume(c *Term) {
 		panic(pathEnd{"infeasible assumption"})
 	}
 	if r == Sat {
-		e.lastModel = m
+		e.addModel(m)
 	}
 }
 
@@ -610,10 +800,7 @@ func (e *Exec) newError(tag string) *IfaceV {
 // ------------------------------------------------------------------ calls
 
 func (e *Exec) callFunc(fn *ssa.Function, args []Value, env []Value) Value {
-	name := fn.String()
-	if fn.Origin() != nil {
-		name = fn.Origin().String()
-	}
+	name := e.eng.fnName(fn)
 	if h, ok := intrinsics[name]; ok {
 		return h(e, fn, args)
 	}
@@ -651,7 +838,7 @@ func (e *Exec) run(fn *ssa.Function, args []Value, env []Value) Value {
 	for i, fv := range fn.FreeVars {
 		f.env[fv] = env[i]
 	}
-	e.frames = append(e.frames, fn.String())
+	e.frames = append(e.frames, frameRec{fn: fn})
 	defer func() { e.frames = e.frames[:len(e.frames)-1] }()
 	b := fn.Blocks[0]
 	for {
@@ -694,10 +881,10 @@ func (e *Exec) run(fn *ssa.Function, args []Value, env []Value) Value {
 				}
 			case *ssa.Panic:
 				v := e.get(f, x.X)
-				e.frames[len(e.frames)-1] = fn.String() + "@" + e.eng.pos(x.Pos())
+				e.frames[len(e.frames)-1].ins = x
 				e.goPanic("panic", "explicit panic: "+e.describe(v))
 			default:
-				e.frames[len(e.frames)-1] = fn.String() + "@" + e.eng.pos(ins.Pos())
+				e.frames[len(e.frames)-1].ins = ins
 				e.step(f, ins)
 			}
 		}
@@ -742,6 +929,7 @@ func (e *Exec) summarize(fn *ssa.Function, args []Value, env []Value) (res Value
 	savedSrc, savedPC, savedSum, savedViol := e.src, len(e.pc), e.sumEp, len(e.viol)
 	savedFrames := len(e.frames)
 	savedDec := e.decisions
+	savedPend := len(e.pending)
 	e.epoch++
 	e.sumEp = e.epoch
 	e.lazy++
@@ -756,6 +944,11 @@ func (e *Exec) summarize(fn *ssa.Function, args []Value, env []Value) (res Value
 		e.pc = e.pc[:savedPC]
 		e.frames = e.frames[:savedFrames]
 		e.lazy--
+		for _, pm := range e.models {
+			if pm.upTo > savedPC {
+				pm.upTo = savedPC
+			}
+		}
 	}
 	failed := false
 	for len(work) > 0 && !failed {
@@ -798,6 +991,9 @@ func (e *Exec) summarize(fn *ssa.Function, args []Value, env []Value) (res Value
 	if failed {
 		e.impure[fn] = true
 		e.viol = e.viol[:savedViol]
+		if len(e.pending) > savedPend {
+			e.pending = e.pending[:savedPend]
+		}
 		return nil, false
 	}
 	if len(outs) == 0 {
@@ -808,6 +1004,9 @@ func (e *Exec) summarize(fn *ssa.Function, args []Value, env []Value) (res Value
 	if !okm {
 		e.impure[fn] = true
 		e.viol = e.viol[:savedViol]
+		if len(e.pending) > savedPend {
+			e.pending = e.pending[:savedPend]
+		}
 		return nil, false
 	}
 	e.note("summarised:" + fn.Name())
